@@ -486,8 +486,100 @@ func runRogue(c *vh.Ctx, cs Case) []*cosih.MCase {
 		}}}
 }
 
+// Sequence scenario (process-wide state: the decoded-point cache of
+// crypto/point.go).  Step 1 offers one special encoding (small-order, mixed
+// order, y >= p) in every input position that decodes a point; step 2, in the
+// same process, uses the same encoding in a key slot: forgeries for the signer
+// set {x.B, E} by the holder of x alone must be refused whatever step 1 did, and
+// CheckKey(E) must answer as before.  The model is stateless: step-2 decisions
+// are ordinary model cases.
+func runCacheSeq(c *vh.Ctx, cs Case) []*cosih.MCase {
+	w := newWorld(c, cs)
+	sps := cosih.Specials()
+	sp := sps[cs.Aux%len(sps)]
+	E := sp.Key
+	ez := cosih.SpecialLog(E)
+	w.T.PutEnc(ez, E[:])
+	sr := vh.NewRand(cs.Seed, "c14-seed")
+	seed := sr.Bytes(cs.SeedLen)
+	var msg crypto.Hash
+	mb, _ := hex.DecodeString(cs.Msg)
+	copy(msg[:], mb)
+
+	before := E.CheckKey()
+	for _, o := range cosih.PresentEverywhere(E, sr) { // step 1
+		if o.Accepted {
+			w.fail("special-accepted", fmt.Sprintf("%s accepted the %s encoding %x", o.Pos, sp.Name, E[:]))
+		}
+	}
+
+	// step 2
+	xk, xz := w.privs[0], w.kz[0]
+	xp := xk.Public()
+	pair := []*crypto.Key{&xp, &E}
+	pairZ := []*big.Int{xz, ez}
+	var out []*cosih.MCase
+	mk := func(kind string, keysZ, privZ []*big.Int, signers []int, obs string, vops []string) {
+		kzT, privT, sT := cosih.ZList(keysZ), cosih.ZList(privZ), ints(signers)
+		seedT, msgT, vT := cosih.BS(seed), cosih.NBytes(msg[:]), vh.List(vops, "vop")
+		out = append(out, &cosih.MCase{Kind: kind, Key: fmt.Sprintf("%s|%+v", kind, cs), Nontrivial: true, JS: cs, T: w.T,
+			Build: func(t *cosih.Tables) string {
+				return vh.App("CSign", t.EncTerm(), t.HashTerm(), kzT, privT, sT, seedT, msgT, obs, vT)
+			}})
+	}
+	// (a) the attacker's honest one-key signature, offered for signer sets containing E
+	sig, err, pan, obs := sign([]*crypto.Key{&xk}, []*crypto.Key{&xp}, []int{0}, seed, msg)
+	if pan || err != nil {
+		w.fail("sign-decision", "single-key AggregateSign failed")
+		return nil
+	}
+	var vops []string
+	try := func(name string, s *crypto.Signature, keys []*crypto.Key, kz []*big.Int, signers []int, want bool) string {
+		var ve error
+		p, _ := vh.Catch(func() { ve = crypto.AggregateVerify(s, keys, signers, msg) })
+		if p {
+			w.fail("verify-panic", "AggregateVerify panicked ("+name+")")
+		} else if (ve == nil) != want {
+			if want {
+				w.fail("verify-rejects", "AggregateVerify rejected a signature because of an unselected key ("+name+")")
+			} else {
+				w.fail("verify-accepts-special-key", fmt.Sprintf("after the %s encoding %x was seen elsewhere, AggregateVerify accepted it in a signer slot (%s)", sp.Name, E[:], name))
+			}
+		}
+		return vh.App("VOp", vh.Some(cosih.ZList(kz)), vh.None("Z"), cosih.ZB(cosih.LEInt(s[32:])), ints(signers), cosih.NBytes(msg[:]), resU(p, ve))
+	}
+	vops = append(vops, try("one-key signature for {x.B, E}", sig, pair, pairZ, []int{0, 1}, false))
+	vops = append(vops, try("one-key signature for {E}", sig, pair, pairZ, []int{1}, false))
+	vops = append(vops, try("E present but not selected", sig, pair, pairZ, []int{0}, true))
+	mk("seq-cache", []*big.Int{xz}, []*big.Int{xz}, []int{0}, obs, vops)
+	// (b) signing for {x.B, E} with x and the zero scalar (0.B is the neutral element)
+	var zero crypto.Key
+	fsig, ferr, fpan, fobs := sign([]*crypto.Key{&xk, &zero}, pair, []int{0, 1}, seed, msg)
+	if fpan {
+		w.fail("sign-panic", "AggregateSign panicked with a special encoding in a signer slot")
+	} else if ferr == nil {
+		w.fail("sign-accepts-special-key", fmt.Sprintf("after the %s encoding %x was seen elsewhere, AggregateSign accepted it in a signer slot", sp.Name, E[:]))
+		var ve error
+		vh.Catch(func() { ve = crypto.AggregateVerify(fsig, pair, []int{0, 1}, msg) })
+		if ve == nil {
+			w.fail("verify-accepts-forgery", fmt.Sprintf("a signature made with one private key verifies for the two-signer set {x.B, %s}", sp.Name))
+		}
+	}
+	mk("seq-cache-sign", pairZ, []*big.Int{xz, big.NewInt(0)}, []int{0, 1}, fobs, nil)
+
+	after := E.CheckKey()
+	if before != after {
+		w.fail("checkkey-changed", fmt.Sprintf("CheckKey(%x) answered %v before and %v after the encoding was seen in other positions", E[:], before, after))
+	} else if after {
+		w.fail("special-accepted", fmt.Sprintf("CheckKey accepted the %s encoding %x", sp.Name, E[:]))
+	}
+	return out
+}
+
 func dispatch(c *vh.Ctx, cs Case) []*cosih.MCase {
 	switch {
+	case cs.Kind == "seq-cache":
+		return runCacheSeq(c, cs)
 	case cs.Kind == "rogue":
 		return runRogue(c, cs)
 	case len(cs.Kind) > 5 && cs.Kind[:5] == "sign-":
@@ -545,7 +637,8 @@ func main() {
 		"random message; AggregateSign, then AggregateVerify on the same inputs and on one changed input per scenario: message bit, S bit, R " +
 		"garbage / other point, selected / unselected key replaced, two selected keys swapped, signer removed / added (signature of S offered " +
 		"for S' > S) / exchanged, unsorted, duplicated, out-of-range, negative, empty signer list (also given to AggregateSign), undecodable / " +
-		"nil / identity key, wrong / missing / extra / non-canonical / nil private key, short seed, rogue-key cancellation (x.B - K_victim). " +
+		"nil / identity key, wrong / missing / extra / non-canonical / nil private key, short seed, rogue-key cancellation (x.B - K_victim); " +
+		"sequence scenarios: every small-order / mixed-order / y>=p encoding first offered in all point-decoding positions, then used in a signer slot. " +
 		"Non-trivial = a signature was produced; distinct by the whole scenario."
 	var all []*cosih.MCase
 	if c.Replay != "" {
@@ -561,6 +654,12 @@ func main() {
 				cs.Signers = []int{0, 2, 4}
 			}
 			all = append(all, dispatch(c, cs)...)
+		}
+		// sequences over the process-wide point cache: one per special encoding
+		for i := range cosih.Specials() {
+			q := gen(cr, "honest")
+			q.Kind, q.N, q.Signers, q.Model, q.Aux = "seq-cache", 1, []int{0}, true, i
+			all = append(all, dispatch(c, q)...)
 		}
 		// boundary: the last index of a 300-key vector; every key signing (oracle only)
 		b := gen(cr, "honest")
